@@ -34,7 +34,7 @@ RULE = (
     "threads observed, or Parquet input; distinct = (table seed, variant)."
 )
 ASSUMPTIONS = [
-    "tolerances: scores rtol 1e-9 for the closed-form learner, 1e-6 for LinearSVC (iterative solver amplifies the 1-ulp differences of text vs Parquet); q-values rtol 1e-5 (float32 / text formatting); PEPs rtol 1e-6 when the scores of both runs are bit-identical, else not compared numerically (triqler's spline fit amplifies a 1-ulp score difference to PEP differences of several percent)",
+    "tolerances: scores rtol 1e-9 for the closed-form learner, 1e-4 for LinearSVC on text-vs-Parquet only (its iterative solver, tol 1e-4, amplifies the 1-ulp feature differences of pandas' float parser); q-values rtol 1e-5 (float32 / text formatting); PEPs rtol 1e-6 when the scores of both runs are bit-identical, else not compared numerically (triqler's spline fit amplifies a 1-ulp score difference to PEP differences of several percent)",
     "features are tie-free; the cross-fold score ties created by calibration (one PSM per fold at exactly 0 / -1) are compared tie-tolerantly",
     "a configuration in which baseline and variant both stop with the same explicit error is 'held'",
 ]
@@ -201,7 +201,10 @@ def run_inproc(case):
             out = pipeline_main.run(spec)
             res.count("pipeline_runs")
             vfiles = read_files(d / f"v{vi}") if out["status"] == "ok" else {}
-            diff = compare(base, out, bfiles, vfiles, score_rtol=1e-9 if common["learner"] == "linear" else 1e-6)
+            # identical inputs must give identical scores (1e-9); for text vs Parquet the features differ by one ulp
+            # (pandas' float parser) and LinearSVC's iterative solver (tol 1e-4) may stop elsewhere
+            loose = common["learner"] != "linear" and v["kind"] == "parquet"
+            diff = compare(base, out, bfiles, vfiles, score_rtol=1e-4 if loose else 1e-9)
             if diff:
                 res.violate(diff[0], v.get("const") or v["kind"], variant=v, detail=diff[1], **extra)
             if v["kind"] == "workers":
